@@ -211,10 +211,10 @@ func localCause(c string) bool {
 // zoneStore counts what the resolver publishes.
 type zoneStore struct{ recorded, cleared int }
 
-func (z *zoneStore) Get(*dns.Msg) (*dns.Msg, bool)            { return nil, false }
+func (z *zoneStore) Get(*dns.Msg) (*dns.Msg, bool)             { return nil, false }
 func (z *zoneStore) SetFromResponse(*dns.Msg, bool, time.Time) {}
-func (z *zoneStore) RecordZoneFailure(dns.Question, string)   { z.recorded++ }
-func (z *zoneStore) ClearZoneFailure(dns.Question, string)    { z.cleared++ }
+func (z *zoneStore) RecordZoneFailure(dns.Question, string)    { z.recorded++ }
+func (z *zoneStore) ClearZoneFailure(dns.Question, string)     { z.cleared++ }
 
 // ---------------------------------------------------------------- exec
 
